@@ -29,6 +29,7 @@ type c02Case struct {
 	Tokens  []int  `json:"tokens,omitempty"`
 	Ladder  int    `json:"ladder,omitempty"` // size-ladder case: body of this many bytes
 	FinalNL bool   `json:"final_nl,omitempty"`
+	MaxKB   int    `json:"maxkb,omitempty"` // memory store with a size limit: a message is kept whole or not at all
 	Show    string `json:"show,omitempty"`
 }
 
@@ -74,7 +75,7 @@ func c02Exec(c *fw.Ctx, cas c02Case) (stored bool) {
 }
 
 func c02ExecB(c *fw.Ctx, cas c02Case) (stored bool) {
-	s := sys.New(sys.Spec{Store: sys.StoreSpec{Backend: cas.Backend}, SMTP: sys.DefaultSMTP(), Web: true, NoHub: true})
+	s := sys.New(sys.Spec{Store: sys.StoreSpec{Backend: cas.Backend, MaxKB: cas.MaxKB}, SMTP: sys.DefaultSMTP(), Web: true, NoHub: true})
 	defer s.Close()
 	body := cas.body()
 	var log []string
@@ -88,7 +89,9 @@ func c02ExecB(c *fw.Ctx, cas c02Case) (stored bool) {
 	d.Cmd("HELO c.test")
 	d.Cmd("MAIL FROM:<s@o.test>")
 	d.Cmd("RCPT TO:<c02@x.test>")
-	d.Cmd("RCPT TO:<c02b@x.test>") // a second mailbox gets its own copy of the same bytes
+	if cas.MaxKB == 0 {
+		d.Cmd("RCPT TO:<c02b@x.test>") // a second mailbox gets its own copy of the same bytes
+	}
 	_, fin := d.Data(body)
 	if fin.OK {
 		d.Cmd("QUIT")
@@ -109,6 +112,11 @@ func c02ExecB(c *fw.Ctx, cas c02Case) (stored bool) {
 		return
 	}
 	ms, err := s.StoreH.Store.GetMessages("c02")
+	if cas.MaxKB > 0 && err == nil && len(ms) == 0 && len(sys.Transmitted(body))+400 > cas.MaxKB*1024 {
+		// larger than the whole store (the trace headers add at most 400 bytes): evicted at once
+		c.Count("evicted_by_the_size_limit", 1)
+		return
+	}
 	if err != nil || len(ms) != 1 {
 		fail("store|count", fmt.Sprintf("after one acknowledged delivery the mailbox lists %d messages (err=%v)", len(ms), err))
 		return
@@ -140,7 +148,9 @@ func c02ExecB(c *fw.Ctx, cas c02Case) (stored bool) {
 	if !checkSrc("store", o.Body) {
 		return
 	}
-	if ms2, err := s.StoreH.Store.GetMessages("c02b"); err != nil || len(ms2) != 1 {
+	if cas.MaxKB > 0 {
+		// single recipient in this configuration
+	} else if ms2, err := s.StoreH.Store.GetMessages("c02b"); err != nil || len(ms2) != 1 {
 		fail("store2|count", fmt.Sprintf("the second recipient's mailbox lists %d messages after one acknowledged delivery (err=%v)", len(ms2), err))
 		return
 	} else if o2 := sys.Observe(ms2[0]); o2.BodyErr != "" {
@@ -328,6 +338,12 @@ func c02Run(c *fw.Ctx) {
 			for _, sz := range []int{1, 4095, 4096, 4097, 65535, 65536, 65537, 1 << 20, 4 << 20} {
 				for _, nl := range []bool{true, false} {
 					run(c02Case{Backend: be, Header: hdr, Ladder: sz, FinalNL: nl, Show: "ladder"})
+				}
+			}
+			if be == "mem" {
+				// a memory store limited to 4 KiB: messages around and above the limit
+				for _, sz := range []int{3000, 3700, 3800, 3850, 3900, 3950, 4000, 4050, 4095, 4096, 4097, 4200, 8192, 65536} {
+					run(c02Case{Backend: be, Header: hdr, Ladder: sz, FinalNL: true, MaxKB: 4, Show: "ladder"})
 				}
 			}
 		}
